@@ -87,6 +87,8 @@ def model(tree, val, log):
         if val[i] == 'raise':
             raise ProbeRaise(i)
         return (val[i] == 'truthy', i)
+    if k == 'lit':
+        return (tree[1], None)
     if k == 'bin':
         op = tree[1]
         a = model(tree[2], val, log)
@@ -119,7 +121,7 @@ def number_probes(tree, counter):
         i = counter[0]
         counter[0] += 1
         return ('probe', i)
-    if k == 'probe':
+    if k in ('probe', 'lit'):
         return tree
     lst = list(tree)
     # children in SOURCE order: if-else is (cond, a, b) in the tuple but a, cond, b in the source
@@ -155,12 +157,17 @@ def render_probes(tree):
     def leafify(t):
         if t[0] == 'probe':
             return ('leaf', f't({t[1]})', None)
+        if t[0] == 'lit':
+            return ('leaf', t[2], None)
         repl = {slot: leafify(child) for slot, child in S.children(t)}
         return _rebuild(t, repl)
     return ' '.join(S.render(leafify(tree)))
 
 
 FILLERS = ['and', 'or', 'if', '+', 'call']
+LITERALS = [('lit', True, 'True'), ('lit', False, 'False'), ('lit', False, 'None'), ('lit', False, '0'), ('lit', True, '1'), ('lit', False, '""'),
+            ('lit', True, '"s"'), ('lit', False, '[]'), ('lit', True, '[0]')]
+FALSY_KINDS = ['dec0', 'int0', 'float0', 'empty-str', 'empty-list', 'empty-tuple', 'none', 'false', 'empty-dict']
 
 
 def filler(kind):
@@ -210,6 +217,8 @@ def variants(tree, nest):
     for p in slots:
         for fk in FILLERS:
             yield _replace(tree, p, filler(fk))
+        for lit in LITERALS:
+            yield _replace(tree, p, lit)
 
 
 def _leaf_paths(t, path=()):
@@ -246,7 +255,12 @@ def parser():
     return _parser[0]
 
 
-def run_case(res, label, text, tree, val, Univ, extra=None):
+def falsy_object(kind, Univ):
+    return {'dec0': lambda: Univ(0), 'int0': lambda: 0, 'float0': lambda: 0.0, 'empty-str': lambda: '', 'empty-list': lambda: [],
+            'empty-tuple': lambda: (), 'none': lambda: None, 'false': lambda: False, 'empty-dict': lambda: {}}[kind]()
+
+
+def run_case(res, label, text, tree, val, Univ, extra=None, falsy='dec0', strict=False):
     log = []
     objs = {}
 
@@ -255,7 +269,7 @@ def run_case(res, label, text, tree, val, Univ, extra=None):
         log.append(i)
         if val[i] == 'raise':
             raise ProbeRaise(i)
-        o = Univ(1 if val[i] == 'truthy' else 0)
+        o = Univ(1) if val[i] == 'truthy' else falsy_object(falsy, Univ)
         objs[i] = o
         return o
     names = {'t': t, 'f': lambda *a: Univ(1), 'g': lambda *a: Univ(1), 'h': lambda *a: Univ(1), 'x': Univ(1)}
@@ -276,14 +290,21 @@ def run_case(res, label, text, tree, val, Univ, extra=None):
     except Exception as e:  # noqa
         exc = ('other', type(e).__name__)
     res.count('evals')
-    w = {'shape': label, 'program': text, 'valuation': [val[i] for i in sorted(val)]}
-    if exc is not None and exc[0] == 'other':
+    w = {'shape': label, 'program': text, 'valuation': [val[i] for i in sorted(val)], 'falsy_kind': falsy}
+    if exc is not None and exc[0] == 'other' and not strict:
         # the operation itself failed after its operands: the log must be a prefix of the model's
         if log != mlog[:len(log)]:
             res.violation(f'order:{label}', 'operands are not evaluated once, left to right (program ended with an unrelated error)',
                           dict(w, expected=mlog, observed=log))
         res.count('ended_with_operator_error')
         res.outcome(f'{label}:opfail')
+        return
+    if exc is not None and exc[0] == 'other':
+        exc = None
+        mexc = None if mexc is None else mexc
+        if log != mlog:
+            res.violation(f'order:{label}:strict', 'a call did not evaluate all its arguments once, left to right, before the function ran',
+                          dict(w, expected=mlog, observed=log))
         return
     if log != mlog:
         kind = 'lazy' if any(x in label for x in ('and', 'or', 'if')) else 'order'
@@ -319,9 +340,13 @@ def work(task):
                 continue
             text = render_probes(pt)
             res.count('programs')
+            lazy = any(x in text for x in (' and ', ' or ', ' if ', 'not ')) and _pure_lazy(pt)
             for combo in itertools.product(('truthy', 'falsy', 'raise'), repeat=n):
                 val = dict(enumerate(combo))
                 run_case(res, label, text, pt, val, Univ)
+                if lazy and 'falsy' in combo and n <= 4:
+                    for fk in FALSY_KINDS[1:]:
+                        run_case(res, label, text, pt, val, Univ, falsy=fk)
         res.sample({'shape': label, 'program': render_probes(number_probes(tree, [0]))})
     else:
         # lambda call / higher-order shapes written by hand: (text, model tree)
@@ -341,6 +366,36 @@ def work(task):
             ('setitem-nested', 't(0)[t(1)][t(2)] = t(3)', ('seq', [P(0), P(1), P(2), P(3)])),
             ('dict-in-list', '[{t(0): t(1)}, t(2)]', ('seq', [P(0), P(1), P(2)])),
         ]
+        api = snapshot.api()
+        P = lambda i: ('probe', i)   # noqa
+        for fname in sorted(api.FUNCTIONS):
+            if fname.startswith('__') or fname in ('rand', 'shuffle'):
+                continue
+            for k in (1, 2, 3):
+                args = ', '.join(f't({i})' for i in range(k))
+                for text in (f'{fname}({args})', f't(0).{fname}(' + ', '.join(f't({i})' for i in range(1, k)) + ')'):
+                    mt = ('seq', [P(i) for i in range(k)])
+                    for combo in itertools.product(('truthy', 'falsy', 'raise'), repeat=k):
+                        run_case(res, f'builtin:{fname}/{k}', text, mt, dict(enumerate(combo)), Univ, strict=True)
+                    res.count('programs')
+        # builtins on real containers: the function must not decide which arguments get evaluated
+        D = api.Decimal
+        extra = {'hd': {'a': D(1)}, 'hl': [D(1), D(2)], 'hs': 'abc'}
+        real_calls = [
+            ('get-present', 'get(hd, "a", t(0))', [P(0)]), ('get-missing', 'get(hd, "zz", t(0))', [P(0)]), ('get-method', 'hd.get("a", t(0))', [P(0)]),
+            ('get-pipe', 'hd | get("a", t(0))', [P(0)]), ('get-key', 'get(hd, t(0), t(1))', [P(0), P(1)]), ('map-empty', 'map([], t(0))', [P(0)]),
+            ('filter-empty', 'filter([], t(0))', [P(0)]), ('sorted-flags', 'sorted(hl, t(0), t(1))', [P(0), P(1)]), ('replace', 'replace(hs, t(0), t(1))', [P(0), P(1)]),
+            ('index_of', 'index_of(hl, t(0))', [P(0)]), ('pretty', 'pretty(hl, t(0))', [P(0)]), ('join', 'join(hl, t(0))', [P(0)]),
+            ('split', 'split(hs, t(0), t(1))', [P(0), P(1)]), ('pop', 'pop(hl, t(0))', [P(0)]), ('insert', 'insert(hl, t(0), t(1))', [P(0), P(1)]),
+            ('round', 'round(t(0), t(1))', [P(0), P(1)]), ('min', 'min(t(0), t(1), t(2))', [P(0), P(1), P(2)]), ('dict-get-default', 'get({}, "k", t(0))', [P(0)]),
+            ('if-in-arg', 'get(hd, "a", t(0) if t(1) else t(2))', [('if', P(1), P(0), P(2))]),
+        ]
+        for label, text, seq in real_calls:
+            mt = ('seq', seq)
+            n = _count(mt)
+            for combo in itertools.product(('truthy', 'falsy', 'raise'), repeat=n):
+                run_case(res, 'real-builtin:' + label, text, mt, dict(enumerate(combo)), Univ, extra=dict(extra, hl=[D(1), D(2)], hd={'a': D(1)}), strict=True)
+            res.count('programs')
         for label, text, mt in hand:
             n = _count(mt)
             for combo in itertools.product(('truthy', 'falsy', 'raise'), repeat=n):
@@ -350,9 +405,27 @@ def work(task):
     return res
 
 
+def _pure_lazy(t):
+    """Only probes, literals, and / or / not / if-else (and the statement wrapper): truthiness is decided by the probes alone."""
+    k = t[0]
+    if k in ('probe', 'lit'):
+        return True
+    if k in ('expr', 'paren'):
+        return _pure_lazy(t[1])
+    if k == 'bin' and t[1] in ('and', 'or'):
+        return _pure_lazy(t[2]) and _pure_lazy(t[3])
+    if k == 'un' and t[1] == 'not':
+        return _pure_lazy(t[2])
+    if k == 'if':
+        return all(_pure_lazy(x) for x in t[1:4])
+    return False
+
+
 def _count(t):
     if t[0] == 'probe':
         return t[1] + 1
+    if t[0] == 'lit':
+        return 0
     if t[0] == 'seq':
         return max([_count(x) for x in t[1]] or [0])
     m = 0
@@ -367,7 +440,7 @@ _orig_children = S.children
 def _children_with_seq(t):
     if t[0] == 'seq':
         return [((1, i), c) for i, c in enumerate(t[1])]
-    if t[0] == 'probe':
+    if t[0] in ('probe', 'lit'):
         return []
     return _orig_children(t)
 
